@@ -19,6 +19,14 @@ UPGRAD_CONST = 50.0         # defect <= UPGRAD_CONST * sqrt(reg_eps) * s * |w|_1
 
 
 def scalings(rng, m):
+    if rng.random() < 0.3:
+        # the two ends of the six orders of magnitude: an objective 1e6 times larger than a conflicting one is still
+        # projected off it (the correction has the size of the LARGE row)
+        ext = lambda: (1e3 if rng.random() < 0.5 else 1e-3) * rng.uniform(0.3, 1.0)          # noqa: E731
+        c1 = torch.tensor([ext() for _ in range(m)], dtype=torch.float64)
+        c2 = torch.tensor([ext() for _ in range(m)], dtype=torch.float64)
+        a, b = 10.0 ** rng.uniform(-1, 1), 10.0 ** rng.uniform(-1, 1)
+        return c1, c2, a, b
     c1 = torch.tensor([10.0 ** rng.uniform(-3, 3) for _ in range(m)], dtype=torch.float64)
     c2 = torch.tensor([10.0 ** rng.uniform(-3, 3) for _ in range(m)], dtype=torch.float64)
     a, b = 10.0 ** rng.uniform(-1, 1), 10.0 ** rng.uniform(-1, 1)
